@@ -14,6 +14,12 @@ ENGINES = [
 NOTES = "Property-based testing and fuzzing only. See DESIGN.md. Known findings: /verif/known_findings.json."
 NOT_APPLICABLE = {}
 CHECKS = {
+    "C13": {
+        "text": "Generated projects (1-5 files, nested directories, cross-file class/function use, optional single faulty file, fresh or pre-populated output directory, custom directory names) run through mamba::transpile_dir in a scratch directory with a before/after snapshot of the whole tree, plus permutations of the file list, an added unrelated file and a removed used file through mamba_to_python.",
+        "design_ref": "DESIGN.md section 6 C13",
+        "note": "The binary's main() only parses options and calls transpile_dir; the check drives transpile_dir directly. Work directories under /verif/work are removed after each case.",
+        "technique": "property-based testing: generated project histories with file-system snapshot invariants and permutation/extension/removal metamorphic relations (Hypothesis)",
+    },
     "C14": {
         "text": "Metamorphic check over ~3k (quick) generated programs and repository samples: a variant with 1-4 layout trivia (trailing/whole-line comments, blank and whitespace-only lines, trailing spaces, final newline, CRLF, doubled grouping parentheses) must get the same verdict and byte-identical Python (equal Python ast for parentheses).",
         "design_ref": "DESIGN.md section 6 C14",
